@@ -130,6 +130,48 @@ func racepassMain(tier string) {
 			return sb.String()
 		},
 	}
+	// marshalling (float, integer and string writers) and Interface on own documents
+	floatDoc := func(id int) []byte {
+		var sb strings.Builder
+		sb.WriteString("[")
+		for i := 0; i < 60; i++ {
+			fmt.Fprintf(&sb, `%d.%d,%de-%d,{"s%d":"a\tb","f":%d.5e%d},`, 371814+id*i, 24462890625+i, id+1, 7+i%9, i, i*id+1, 15+i%6)
+		}
+		sb.WriteString("-0.0]")
+		return []byte(sb.String())
+	}
+	ops = append(ops, func(id int) string {
+		pj, err := simdjson.Parse(floatDoc(id%5), nil)
+		if err != nil {
+			return "ERR " + err.Error()
+		}
+		it := pj.Iter()
+		out, merr := it.MarshalJSON()
+		it2 := pj.Iter()
+		v, ierr := it2.Interface()
+		return fmt.Sprintf("%s %v %v %v", out, merr, v, ierr)
+	})
+	// a clone handed to another goroutine while its source is refilled by Deserialize
+	ops = append(ops, func(id int) string {
+		s := simdjson.NewSerializer()
+		a, err := simdjson.Parse([]byte(small[id%3]), nil)
+		b, err2 := simdjson.Parse([]byte(small[(id+1)%3]), nil)
+		if err != nil || err2 != nil {
+			return "ERR"
+		}
+		blobA := append([]byte(nil), s.Serialize(nil, *a)...)
+		blobB := append([]byte(nil), s.Serialize(nil, *b)...)
+		pj, derr := s.Deserialize(blobA, nil)
+		if derr != nil {
+			return "ERR " + derr.Error()
+		}
+		c := pj.Clone(nil)
+		done := make(chan string)
+		go func() { done <- render(c, nil) }()
+		pj, derr = s.Deserialize(blobB, pj)
+		fromClone := <-done
+		return fromClone + " / " + render(pj, derr) + " / " + render(c, nil)
+	})
 	// cold start: fresh processes in which the first use of the package's lazily built shared
 	// state (the zstd decoder behind NewSerializer) happens in many goroutines at once
 	coldRuns, coldMism := racepassColdParent(small, render, tier)
